@@ -41,7 +41,7 @@ def long_netlist(n_in, length, seed, input_rate=0.5):
 @st.composite
 def cases(draw, tier):
     lim = LIMITS[tier]
-    if draw(st.integers(0, 15)) == 0:
+    if draw(st.integers(0, 15 if tier == 'quick' else 63)) == 0:  # (about a second each)
         nl = long_netlist(draw(st.integers(1, 3)), draw(st.sampled_from([125, 130, 160, 200, 260, 320])), draw(st.integers(0, 2 ** 32)),
                           draw(st.sampled_from([0.5, 0.05, 0.0, 0.0])))
         return {'nl': nl, 'route': draw(gen.routes(nl)), 'sel': draw(st.sampled_from([None, None, [0]])), 'taut': False}
